@@ -46,8 +46,8 @@ def case_term(r, defs):
             key, X.store(r["prev"]), key, X.stmt(r["stmt"], reads=r.get("reads") or []))
     tbl = X.clist(["(%s, %s)" % (call(e), fault(e)) for e in (r.get("sched") or [])])
     after = "prev_%s" % key if r["after"] == r["prev"] else X.store(r["after"])
-    return "(%d%%nat, prev_%s, stmt_%s, %s, mkFObs %s %s %s)" % (
-        r["bulk"], key, key, tbl, X.oclass(r["class"]), X.clist([call(c) for c in r["calls"]]), after)
+    return "(%s, %d%%nat, prev_%s, stmt_%s, %s, mkFObs %s %s %s)" % (
+        X.cbool(X.det_rows(r["stmt"])), r["bulk"], key, key, tbl, X.oclass(r["class"]), X.clist([call(c) for c in r["calls"]]), after)
 
 
 def model_mismatches(ctx, name, runs):
